@@ -170,8 +170,21 @@ func expect(c Case) (string, string) {
 				set(either, "'*' kind overlapping a specific verb of another method")
 			}
 		}
-		// own implicit binding: same method, always fine
 		_ = n
+	}
+	// two different bindings of the method itself on one trie position and
+	// verb: which one wins is unspecified
+	for i, a := range c.New {
+		for _, b := range c.New[:i] {
+			ta, ea := ref.ParseTemplate(a.Tmpl)
+			tb, eb := ref.ParseTemplate(b.Tmpl)
+			if ea != nil || eb != nil || a == b {
+				continue
+			}
+			if ta.PositionKey() == tb.PositionKey() && (a.Verb == "*" || b.Verb == "*" || strings.EqualFold(a.Verb, b.Verb)) {
+				set(either, "two different bindings of the method on one position")
+			}
+		}
 	}
 	return verdict, why
 }
